@@ -585,8 +585,11 @@ func TestC12LCSExhaustive(t *testing.T) {
 
 var cmpKinds = []string{"nat", "rev", "half"}
 
+// cmpKindsRand adds comparisons that return magnitudes / extreme values.
+var cmpKindsRand = []string{"nat", "rev", "half", "extreme", "diff"}
+
 func genSeqCase(t *rapid.T) SeqCase {
-	c := SeqCase{Cmp: rapid.SampledFrom(cmpKinds).Draw(t, "cmp")}
+	c := SeqCase{Cmp: rapid.SampledFrom(cmpKindsRand).Draw(t, "cmp")}
 	k := rapid.SampledFrom([]int{3, 2, 4, 6, 1, 5}).Draw(t, "values")
 	if c.Cmp == "half" {
 		k *= 2
